@@ -140,7 +140,7 @@ KEY2 = b"AAECAwQFBgcICQoLDA0ODw=="
 # hs1 / hs2 alphabets (None = header absent, list = one header line per element)
 
 UPG = [None, [b"websocket"], [b"WebSocket"], [b"foo"], [b"websocket", b"websocket"], [b"websocket, foo"],
-       [b"foo", b"websocket"]]
+       [b"foo", b"websocket"], [b"websocket, caf\xe9/1"]]  # (the last: obs-text in a protocol name next to websocket)
 CON = [None, [b"Upgrade"], [b"upgrade"], [b"keep-alive"], [b"keep-alive", b"Upgrade"], [b"Upgrade", b"keep-alive"],
        [b"keep-alive, Upgrade"]]
 KEYS = [None, [KEY], [b"abc"], [b""], [KEY, KEY2]]
